@@ -42,6 +42,18 @@ CHROMATIC = {b'C': 0, b'C#': 1, b'D-': 1, b'D': 2, b'D#': 3, b'E-': 3, b'E': 4, 
 
 
 def check(ctx, rep):
+    # X substring: the rest of the string is read, the stream is cut at the X position, and substring + rest are written back THERE
+    plx = ctx.fn(S + ':Sound.play_')
+    xb = [i for i in own_nodes(plx) if isinstance(i, ast.If) and norm(i.test) == "c == b'X'"]
+    seq = []
+    if len(xb) == 1:
+        for st in xb[0].body:
+            for c in own_nodes(st):
+                if isinstance(c, ast.Call) and norm(c.func).startswith('mmls.'):
+                    seq.append(norm(c))
+    rep.ob('substring.spliced-in-place', 'play_: X reads the rest, seeks back, truncates, writes substring + rest, seeks back',
+           seq == ['mmls.parse_string()', 'mmls.tell()', 'mmls.read()', 'mmls.seek(pos)', 'mmls.truncate()', 'mmls.write(sub)', 'mmls.write(rest)', 'mmls.seek(pos)'],
+           repr(seq) + ': without the seek/truncate the substring is appended behind the rest, which is then played twice', ctx.where(plx))
     # every note starts without a length suffix: `length` is reset inside the note branch, so that a bare P (which needs one)
     # cannot borrow the suffix of an earlier note
     pl = ctx.fn(S + ':Sound.play_')
@@ -176,6 +188,8 @@ def _unwrap_keyerror(fn):
 
 def variants(ctx):
     return _variants0(ctx) + [
+        mu.Variant('substring-appended-instead-of-spliced', 'break', S,
+                   lambda tree: mu.remove_stmt(mu.find_def(tree, 'Sound.play_'), mu.text_is('mmls.truncate()')), expect='substring.spliced-in-place'),
         mu.Variant('length-suffix-reset-once-per-play', 'break', S,
                    lambda tree: _hoist_length(mu.find_def(tree, 'Sound.play_')), expect='notes.length-suffix-per-note'),
         mu.Variant('sound-voice-defaulted-by-truthiness', 'break', 'pcbasic/basic/sound.py',
